@@ -81,6 +81,9 @@ def evaluate(case, obs):
         oc = s.get("outcome")
         if oc is None:
             continue
+        if oc[0] == "cancelled" and s.get("app_cancelled"):
+            out.label("future_cancelled_by_application")      # the application's own doing
+            continue
         if acks0:
             if oc[0] != "none" and oc[0] != "error":
                 out.fail("acks0_none", "metadata_with_acks0", {"id": s["id"], "outcome": oc})
@@ -155,4 +158,8 @@ def campaigns(tier):
     return [
         Campaign("futures_sim", "hyp", execute=execute, strategy=lambda: PS.strategy("futures"),
                  examples=40000 if th else 4000, setup=PS.setup, max_wall=900 if th else 100, shrink_wall=40),
+        # applications that stop waiting for single records (asyncio.wait_for cancels the delivery future) while their
+        # batch is lingering, in flight, retried, expired or refused for good
+        Campaign("cancelled_waiters", "hyp", execute=execute, strategy=lambda: PS.strategy("cancel"),
+                 examples=12000 if th else 1500, setup=PS.setup, max_wall=400 if th else 60, shrink_wall=40),
     ]
